@@ -7,6 +7,7 @@ import (
 	"go/parser"
 	"go/token"
 	"go/types"
+	"os"
 	"strconv"
 	"strings"
 
@@ -239,8 +240,15 @@ func (ev *specEnv) expr(e ast.Expr, n *specNode) Val {
 		idx := ev.expr(e.Index, n)
 		return ev.index(base, idx)
 	case *ast.TypeAssertExpr:
-		v := ev.expr(e.X, n).(Sc)
+		v0 := ev.expr(e.X, n)
 		t := ev.resolveType(e.Type)
+		v, ok := v0.(Sc)
+		if !ok {
+			return retype(v0, t) // already a concrete (non-interface) value, e.g. a recorded call argument
+		}
+		if v.T.Sort != sIface {
+			return Sc{v.T, t}
+		}
 		return x.unbox(v.T, t)
 	case *ast.CallExpr:
 		return ev.callExpr(e, n)
@@ -399,29 +407,53 @@ func (ev *specEnv) local(name string) (Val, bool) {
 		}
 	}
 	// debug refs: latest available value bound to the name whose block dominates the current point
-	var best ssa.Value
+	var best, bestConst ssa.Value
+	bestIdx := -1
 	for _, b := range fr.fn.Blocks {
-		if ev.at != nil && !(b == ev.at || b.Dominates(ev.at)) {
-			continue
-		}
 		for _, ins := range b.Instrs {
-			if d, ok := ins.(*ssa.DebugRef); ok && !d.IsAddr {
-				if id, ok := d.Expr.(*ast.Ident); ok && id.Name == name {
-					if _, have := fr.vals[d.X]; have {
-						if b == ev.at {
-							if _, isPhi := d.X.(*ssa.Phi); !isPhi {
-								continue
-							}
-						}
-						best = d.X
-					} else if _, isConst := d.X.(*ssa.Const); isConst {
-						best = d.X
-					}
+			d, ok := ins.(*ssa.DebugRef)
+			if !ok || d.IsAddr {
+				continue
+			}
+			id, ok := d.Expr.(*ast.Ident)
+			if !ok || id.Name != name {
+				continue
+			}
+			if _, isConst := d.X.(*ssa.Const); isConst {
+				if bestConst == nil {
+					bestConst = d.X
 				}
+				continue
+			}
+			if _, have := fr.vals[d.X]; !have {
+				continue
+			}
+			// the value must be defined at a point that dominates the current one
+			vi, isInstr := d.X.(ssa.Instruction)
+			if isInstr && ev.at != nil {
+				vb := vi.Block()
+				if vb == ev.at {
+					if _, isPhi := d.X.(*ssa.Phi); !isPhi {
+						continue
+					}
+				} else if !vb.Dominates(ev.at) {
+					continue
+				}
+				if vb.Index >= bestIdx {
+					best, bestIdx = d.X, vb.Index
+				}
+			} else if best == nil {
+				best = d.X
 			}
 		}
 	}
+	if best == nil {
+		best = bestConst
+	}
 	if best != nil {
+		if os.Getenv("EVYVC_DEBUG_FRESH") != "" {
+			fmt.Fprintf(os.Stderr, "local(%s) -> %s (%T) = %#v\n", name, best.Name(), best, ev.x.val(fr, ev.st, best))
+		}
 		return ev.x.val(fr, ev.st, best), true
 	}
 	return nil, false
@@ -443,6 +475,9 @@ func (ev *specEnv) field(base Val, name string) Val {
 		u, ok := p.Elem.Underlying().(*types.Struct)
 		if !ok {
 			fail("field %s of non-struct pointer %s", name, p.Elem)
+		}
+		if p.Obj && !ev.st.noSide && ev.st.inQuant == 0 {
+			x.assumeTypeInv(ev.st, p)
 		}
 		for i := 0; i < u.NumFields(); i++ {
 			if u.Field(i).Name() == name {
@@ -517,7 +552,7 @@ func (ev *specEnv) evalLoc(n *specNode) Ptr {
 		idx := ev.coerceInt(ev.expr(e.Index, n).(Sc)).T
 		if sl, ok := base.(Sl); ok {
 			et := sl.GT.Underlying().(*types.Slice).Elem()
-			return Ptr{Prefix: "elem:" + typeStr(et), Idx: []Term{sl.Base, app(sInt, "+", sl.Off, idx)}, Elem: et, GT: types.NewPointer(et)}
+			return Ptr{Prefix: x.elemPrefix(sl.Base, et), Idx: []Term{sl.Base, app(sInt, "+", sl.Off, idx)}, Elem: et, GT: types.NewPointer(et)}
 		}
 	case *ast.Ident:
 		if ev.fr != nil {
@@ -552,7 +587,7 @@ func (ev *specEnv) index(base, idx Val) Val {
 	case Sl:
 		et := b.GT.Underlying().(*types.Slice).Elem()
 		i := ev.coerceInt(idx.(Sc)).T
-		p := Ptr{Prefix: "elem:" + typeStr(et), Idx: []Term{b.Base, addIndex(b.Off, i)}, Elem: et}
+		p := Ptr{Prefix: x.elemPrefix(b.Base, et), Idx: []Term{b.Base, addIndex(b.Off, i)}, Elem: et}
 		return x.load(ev.st, p, et)
 	case ArrV:
 		i := ev.coerceInt(idx.(Sc)).T
@@ -870,6 +905,9 @@ func (ev *specEnv) callExpr(e *ast.CallExpr, n *specNode) Val {
 			fail("fresh() outside a postcondition")
 		}
 		r := ev.refOf(arg(0))
+		if os.Getenv("EVYVC_DEBUG_FRESH") != "" {
+			fmt.Fprintf(os.Stderr, "fresh(%s): arg=%#v\n", exprString(e.Args[0]), arg(0))
+		}
 		return boolV(mkAnd(app(sBool, ">=", r, ev.old.alloc), app(sBool, "<", r, ev.st.alloc)))
 	case "allocated":
 		r := ev.refOf(arg(0))
@@ -933,7 +971,7 @@ func (ev *specEnv) callExpr(e *ast.CallExpr, n *specNode) Val {
 		s := arg(0).(Sl)
 		et := s.GT.Underlying().(*types.Slice).Elem()
 		srt := x.heapSort(et)
-		A := x.classTermSort(ev.st, "elem:"+typeStr(et), arr(sInt, arr(sInt, srt)))
+		A := x.classTermSort(ev.st, x.elemPrefix(s.Base, et), arr(sInt, arr(sInt, srt)))
 		return ArrV{mkSelect(A, s.Base), et}
 	case "idxof", "atpos":
 		// idxof(s, k): choice function for a position of k in slice s. Its defining axiom fires only where
@@ -941,7 +979,7 @@ func (ev *specEnv) callExpr(e *ast.CallExpr, n *specNode) Val {
 		sl := arg(0).(Sl)
 		et := sl.GT.Underlying().(*types.Slice).Elem()
 		srt := x.heapSort(et)
-		A := x.classTermSort(ev.st, "elem:"+typeStr(et), arr(sInt, arr(sInt, srt)))
+		A := x.classTermSort(ev.st, x.elemPrefix(sl.Base, et), arr(sInt, arr(sInt, srt)))
 		fn := quoteSym("idxof:" + srt)
 		mk := quoteSym("posmark:" + srt)
 		x.decls.add(fn, fmt.Sprintf("(declare-fun %s (%s Int Int %s) Int)\n(declare-fun %s (%s Int) Bool)\n(assert (forall ((a %s) (j Int)) (! (%s a j) :pattern ((%s a j)))))\n(assert (forall ((a %s) (o Int) (n Int) (k %s) (j Int)) (! (=> (and (<= o j) (< j (+ o n)) (= (select a j) k)) (and (<= 0 (%s a o n k)) (< (%s a o n k) n) (= (select a (+ o (%s a o n k))) k))) :pattern ((%s a o n k) (%s a j)))))",
@@ -1074,7 +1112,7 @@ func (ev *specEnv) refOf(v Val) Term {
 	switch v := v.(type) {
 	case Sc:
 		if v.T.Sort == sIface {
-			return app(sInt, "iref", v.T)
+			return irefOf(v.T)
 		}
 		return v.T
 	case Ptr:
